@@ -66,6 +66,14 @@ def run_case(case):
             contracts.tensor2_contract(mon, crys, D, 'D', psd=True, scale=scale, prefix='C02')
             mon.count('with_vector_basis', diff.NV > 0)
             mon.count('pinv_branch', diff.NV > 0 and not diff.omega_invertible)
+            if diff.NV > 0 and not diff.omega_invertible:
+                # pseudo-inverse branch: the same data at several absolute rate scales (each scale is a different rounding of the
+                # projected rate matrix; the reference is exactly scale-covariant)
+                for _ in range(6):
+                    sh = float(rng.uniform(-3., 40.))
+                    Dsh = diff.diffusivity(pre, bE, preT, bET + sh)
+                    mon.close(Dsh * np.exp(sh), Dref, 1e-9, 'C02:D=R1', lambda: 'barriers shifted by %.6f: %s' % (sh, desc), scale=scale)
+                    mon.count('pinv_branch_rate_scales')
             mon.count('multi_wyckoff', len(sl) > 1)
             mon.count('dim2', crys.dim == 2)
             mon.count('disconnected', len(comps) > 1)
